@@ -35,6 +35,8 @@ inductive Kind where
   | dict                 -- dict (aliases, submodels)
   | tuple                -- tuple / namedtuple that (transitively) holds a mutable object: itself immutable, but a node
                          --   with edges to mutable children, so `copy.deepcopy` must build a new one around copied children
+  | uncopyable           -- an object `copy.deepcopy` cannot copy (generator, `dict.keys()` view, lock, open file …):
+                         --   deep-copying it raises TypeError
   | trace                -- `fsic.extensions.model.Trace` instance (attributes names / index / values)
   | inst (cls : Nat)     -- `__dict__` of a container / model / linker instance of class number `cls`
   | cls                  -- class-level attributes of a class (ENDOGENOUS, CHECK, NAMES, ALIASES, …)
@@ -571,6 +573,7 @@ def deepcopy (cs : List ClassDesc) : Nat → Copier
       | none => none
       | some o =>
         match o.kind with
+        | .uncopyable => none   -- TypeError: cannot pickle / copy
         | .inst ci =>
           match cs[ci]? with
           | none => none
@@ -590,6 +593,13 @@ def copyRoot (cs : List ClassDesc) (h : Heap) (a : Loc) : Option (Heap × Loc) :
   | some (h1, _, .ref c) => some (h1, c)
   | _ => none
 
+/-- The statement `c = copy(a)` as a command: on failure (an uncopyable attribute; `none`) the exception propagates
+    and the heap is what it was — nothing of the half-built copy is kept anywhere. -/
+def copyCmd (cs : List ClassDesc) (h : Heap) (a : Loc) : Heap × Option Loc :=
+  match copyRoot cs h a with
+  | some (h1, c) => (h1, some c)
+  | none => (h, none)
+
 /-! ## Observation -/
 
 def viewWith (f : Val → List String) : List (String × Val) → List String
@@ -605,6 +615,7 @@ def immStr : Imm → String
 
 def kindStr : Kind → String
   | .list => "list" | .array => "array" | .dict => "dict" | .trace => "trace" | .tuple => "tuple"
+  | .uncopyable => "uncopyable"
   | .inst c => "inst" ++ toString c | .cls => "class"
 
 /-- The value seen through `v` with all locations abstracted away (tree unfolding to depth `fuel`). -/
